@@ -321,3 +321,99 @@ Proof.
     destruct (quote_of_cases q) as [E | E]; rewrite E;
       (split; [reflexivity |]; split; [neq |]; split; [left; reflexivity |]; intros _; split; [| split]; neq).
 Qed.
+
+(* ---- the atom lemma ---- *)
+Lemma forallb_we_wordch c : forallb is_we c = true -> forallb is_wordch c = true.
+Proof.
+  induction c as [| a c IH]; [reflexivity |]. simpl. intros H. apply andb_true_iff in H. destruct H as [Ha Hc].
+  rewrite (we_wordch a Ha). auto.
+Qed.
+Lemma forallb_dig_wordch c : forallb is_dig c = true -> forallb is_wordch c = true.
+Proof.
+  induction c as [| a c IH]; [reflexivity |]. simpl. intros H. apply andb_true_iff in H. destruct H as [Ha Hc].
+  rewrite (dig_wordch a Ha). auto.
+Qed.
+Lemma ends_word_code c : codelikeb c = true -> ends_word (code_lit c) = true.
+Proof.
+  intros H. apply codelike_parts in H. destruct H as [Hne Hall]. rewrite code_lit_cons.
+  change (x7e :: c) with ([x7e] ++ c). rewrite ends_word_app by exact Hne.
+  apply ends_word_all; [exact Hne | apply forallb_we_wordch; exact Hall].
+Qed.
+Lemma ws1_head w : exists d r, ws1 w = d :: r /\ is_ws d = true.
+Proof. destruct w as [| c w]; [exists x20, []; split; reflexivity |]. exists (wsch_byte c), (ws_bytes w). split; [reflexivity | apply wsch_is_ws]. Qed.
+Lemma safe_we_ws1 w X : safe is_we (ws1 w ++ X).
+Proof. destruct (ws1_head w) as [d [r [E Hd]]]. rewrite E. simpl. apply not_wordch_not_we, ws_not_wordch. exact Hd. Qed.
+Lemma mem_unary_codelike c : mem_bytes c unary_codes = true -> codelikeb c = true.
+Proof. intros H. apply in_codes_codelike. unfold all_codes. apply in_or_app. left. apply mem_bytes_In. exact H. Qed.
+Lemma mem_rex_codelike c : mem_bytes c rex_codes = true -> codelikeb c = true.
+Proof. intros H. apply in_codes_codelike. unfold all_codes. apply in_or_app. right. apply in_or_app. left. apply mem_bytes_In. exact H. Qed.
+Lemma mem_int_codelike c : mem_bytes c int_codes = true -> codelikeb c = true.
+Proof. intros H. apply in_codes_codelike. unfold all_codes. apply in_or_app. right. apply in_or_app. right. apply mem_bytes_In. exact H. Qed.
+
+Lemma p_atom_ok a st w rest : atom_in_table a = true -> atom_style_ok a st = true -> allws w ->
+  follow_ok (render_atom a st) rest ->
+  p_atom (w ++ render_atom a st ++ rest) = Some (atom_of a, rest).
+Proof.
+  intros Ht Hs Hw Hf. unfold p_atom. rewrite parts_coded. destruct a as [c | c a | c ds]; simpl in Ht; simpl atom_of.
+  - (* unary *)
+    pose proof (mem_unary_codelike c Ht) as Hcl. unfold render_atom in *.
+    assert (HX : safe is_we rest).
+    { apply safe_we_of_wordch. eapply follow_safe; [| exact Hf]. apply ends_word_code. exact Hcl. }
+    apply first_part_found with (P := PUnary c); [apply In_coded_unary; exact Ht | reflexivity | exact Hw | exact HX |].
+    unfold p_part. rewrite p_code_same by assumption. reflexivity.
+  - (* regex *)
+    pose proof (mem_rex_codelike c Ht) as Hcl. simpl in Hs. unfold render_atom in *.
+    destruct (render_arg_head _ _ _ Hs) as [d [r [Ed [Hdws [Hdt [Hdwe _]]]]]].
+    destruct (naked st && bytes_eqb c naked_code) eqn:N.
+    + apply andb_true_iff in N. destruct N as [_ N]. apply bytes_eqb_eq in N. subst c.
+      assert (E : first_part (coded ++ [PNaked]) (w ++ render_arg (qs st) a ++ rest)
+                  = first_part [PNaked] (w ++ render_arg (qs st) a ++ rest)).
+      { rewrite Ed. change ((d :: r) ++ rest) with (d :: r ++ rest). apply first_part_nontilde; assumption. }
+      rewrite E. cbn [first_part p_part]. rewrite (p_regex_arg _ _ _ _ _ Hs Hw Hf). reflexivity.
+    + set (gap := if is_bare (qs st) then ws1 (w1 st) else ws_bytes (w1 st)) in *.
+      assert (Hgap : allws gap) by (unfold gap; destruct (is_bare (qs st)); [apply ws1_allws | apply ws_bytes_allws]).
+      assert (HX : safe is_we (gap ++ render_arg (qs st) a ++ rest)).
+      { rewrite Ed. change ((d :: r) ++ rest) with (d :: r ++ rest).
+        destruct Hdwe as [Hdwe | Hb]; [apply safe_we_allws_app; assumption |].
+        unfold gap. rewrite Hb. simpl is_bare. cbv iota. apply safe_we_ws1. }
+      assert (Hne : render_arg (qs st) a <> []) by (rewrite Ed; discriminate).
+      assert (Hf' : follow_ok (render_arg (qs st) a) rest).
+      { unfold follow_ok in *. rewrite app_assoc in Hf. rewrite ends_word_app in Hf by exact Hne. exact Hf. }
+      rewrite <- !app_assoc.
+      apply first_part_found with (P := PRex c); [apply In_coded_rex; exact Ht | reflexivity | exact Hw | exact HX |].
+      unfold p_part. rewrite p_code_same by assumption.
+      erewrite p_regex_arg; [reflexivity | exact Hs | exact Hgap | exact Hf'].
+  - (* int *)
+    apply andb_true_iff in Ht. destruct Ht as [Ht Hds].
+    assert (Hne : ds <> []) by (destruct ds; [discriminate | discriminate]).
+    assert (Hd : forallb is_dig ds = true) by (destruct ds; [discriminate | exact Hds]).
+    pose proof (mem_int_codelike c Ht) as Hcl. unfold render_atom in *.
+    assert (Hr : safe is_wordch rest).
+    { eapply follow_safe; [| exact Hf]. rewrite app_assoc. rewrite ends_word_app by exact Hne.
+      apply ends_word_all; [exact Hne | apply forallb_dig_wordch; exact Hd]. }
+    rewrite <- !app_assoc.
+    apply first_part_found with (P := PInt c); [apply In_coded_int; exact Ht | reflexivity | exact Hw | apply safe_we_ws1 |].
+    unfold p_part. rewrite p_code_same; [| assumption | assumption | apply safe_we_ws1].
+    rewrite p_int_ok; [reflexivity | exact Hne | exact Hd | apply ws1_allws | exact Hr].
+Qed.
+
+(* first character of a rendered atom: not whitespace, and (for the proofs about operators) which operator
+   characters it can be *)
+Lemma render_atom_head a st : atom_in_table a = true -> atom_style_ok a st = true ->
+  exists d r, render_atom a st = d :: r /\ is_ws d = false /\ d <> op_not /\ d <> op_and /\ d <> op_or /\ d <> lpar.
+Proof.
+  intros Ht Hs. destruct a as [c | c a | c ds]; unfold render_atom.
+  - exists x7e, c. split; [reflexivity |]. split; [reflexivity |]. repeat split; neq.
+  - simpl in Hs. destruct (render_arg_head _ _ _ Hs) as [d [r [Ed [Hdws [Hdt [_ Hops]]]]]].
+    destruct (naked st && bytes_eqb c naked_code) eqn:N.
+    + exists d, r. split; [exact Ed |]. split; [exact Hdws |]. destruct (Hops eq_refl) as [H1 [H2 H3]].
+      repeat split; try assumption.
+      intros ->. destruct (qs st) as [| q | q]; unfold render_arg in Ed.
+      * simpl in Hs. destruct a as [| x a]; [discriminate |]. injection Ed as -> _.
+        apply andb_true_iff in Hs. destruct Hs as [Hs _]. simpl in Hs. vm_compute in Hs. discriminate Hs.
+      * injection Ed as Ed _. destruct (quote_of_cases q) as [E | E]; rewrite E in Ed; vm_compute in Ed; discriminate Ed.
+      * injection Ed as Ed _. destruct (quote_of_cases q) as [E | E]; rewrite E in Ed; vm_compute in Ed; discriminate Ed.
+    + exists x7e, (c ++ (if is_bare (qs st) then ws1 (w1 st) else ws_bytes (w1 st)) ++ render_arg (qs st) a).
+      split; [reflexivity |]. split; [reflexivity |]. repeat split; neq.
+  - exists x7e, (c ++ ws1 (w1 st) ++ ds). split; [reflexivity |]. split; [reflexivity |]. repeat split; neq.
+Qed.
